@@ -78,7 +78,7 @@ func c12Gen(seed uint64, run int, tier string) *Case {
 			c.Cfg["badframe"] = 1
 			c.Cfg["badsize"] = int64(r.Pick(0, 1, 4, 6, -1, -2, -3, -4)) // negative: relative to msize (-1: msize+1, -2: 8*msize+1, -3: 2^32-1, -4: 2^31)
 			c.Cfg["badbody"] = int64(r.Pick(0, 0, 50, 5000))
-			c.Cfg["badcut"] = int64(r.Pick(0, 0, 0, 5, 6)) // only the first 5 or 6 bytes of the bad frame arrive, then the peer waits
+			c.Cfg["badcut"] = int64(r.Pick(0, 0, 0, 5, 6))                                                // only the first 5 or 6 bytes of the bad frame arrive, then the peer waits
 			c.Cfg["badtype"] = int64(r.Pick(Tclunk, Tclunk, Tversion, Tversion, Tflush, Tattach, Rclunk)) // the size rule is for every frame, whatever type it claims
 			if c.Cfg["cmsize"] < 24 {
 				c.Cfg["cmsize"] = 256
